@@ -26,6 +26,7 @@ TECHNIQUE = ('differential testing on transliterated wrapper source: '
              'generated handle life-cycle histories and NULL-return fault '
              'injection against a reference-counting stub library')
 RULE = (
+    'ZDD sequences: 3-8 entry-point calls on ONE structural manager (shared computed table, dead and reclaimed nodes), every result checked. The ZDD apply is swept under three variable orders of the stub library (Cudd_ReadPermZdd / Cudd_ReadInvPermZdd / univ[level]). JSON: dd._copy.load_json (behind dd.cudd.BDD.load) runs against the cudd handle model on intact and damaged files: values, one reference per returned handle, nothing left referenced after a failed load. '
     'Methods of dd/cudd.pyx beyond apply (ite, quantify, forall, exist, let in its three forms incl. _cofactor / _unary_compose / _multi_compose / _rename, _swap, var) run the same way for the reference discipline: the result handle accounts for exactly one reference, temporaries (cubes, variable handles, vectors) are gone afterwards, also when the i-th library call returns NULL. '
     'ZDD: the hand-written recursions of cudd_zdd.pyx (_exist, _forall, _disjoin, _conjoin, _compose, _find_or_add, their roots and _c_ entry points, _dict_to_zdd) are executed on a structural reference-counting model of the CUDD ZDD layer: all functions x cubes for the quantifiers (result compared with the truth-table oracle: these are what apply uses), all / sampled pairs for the others, and for sampled calls the i-th unique-table insertion fails for every i, once as out-of-memory (must raise) and once as reordering (must retry); after dropping all handles every reference must be released. '
     'D+E: for each of dd/cudd.pyx, cudd_zdd.pyx, sylvan.pyx, buddy.pyx the '
